@@ -466,9 +466,12 @@ theorem async_all_by_details_eq (s : DNSCache) (name : String) (ty cls : Nat) :
   | none => rfl
   | some st =>
     simp only [Option.getD_some, bind]
-    rw [forIn_id_yield _ _ _ (fun acc x => if (decide (ty = x.type) && decide (cls = x.class_)) then acc ++ [id x] else acc)
-      (by intro x b; split <;> rfl), foldl_collect]
-    simp [pure]
+    -- the accumulating loop of the source; a comprehension in its place is the model's filter as it stands
+    first
+      | rfl
+      | (rw [forIn_id_yield _ _ _ (fun acc x => if (decide (ty = x.type) && decide (cls = x.class_)) then acc ++ [id x] else acc)
+          (by intro x b; split <;> rfl), foldl_collect]
+         simp [pure])
 
 /-- `async_entries_with_name`: the keys of the returned dict are the model's list -/
 theorem async_entries_with_name_eq (s : DNSCache) (name : String) :
